@@ -127,9 +127,14 @@ func TestC05_FailedTxOnlyChargesFee(t *testing.T) {
 	users := []*fix.ZooKey{bk, fix.Key(fix.KP256, 1), fix.Key(fix.KP256, 2), fix.Key(fix.KP256, 3), fix.Key(fix.KP256, 4), fix.Key(fix.KP256, 5)}
 	gov := nutils.GovernanceContractAddress
 	const minFee2500 = 20000 * 2500
-	funding := []uint64{0 /*bk: untouched*/, 0, minFee2500 - 1, minFee2500, minFee2500*3 + 777, 5000000000000}
+	funding0 := []uint64{0 /*bk: untouched*/, 0, minFee2500 - 1, minFee2500, minFee2500*3 + 777, 5000000000000}
 
 	harn.Check(t, 90, 2400, func(t *rapid.T) {
+		// user 4 holds a small balance that is mostly NOT a whole number of fee units (fees are rounded
+		// up to 20000-gas units and capped by the balance: the partial unit is the boundary)
+		funding := append([]uint64{}, funding0...)
+		funding[4] = minFee2500*rapid.Uint64Range(1, 3).Draw(t, "units4") +
+			rapid.SampledFrom([]uint64{777, minFee2500 / 2, minFee2500/2 + 777, minFee2500 - 1, minFee2500 / 4}).Draw(t, "frac4")
 		base, err := os.MkdirTemp("", "c05-")
 		if err != nil {
 			t.Fatal(err)
@@ -192,6 +197,13 @@ func TestC05_FailedTxOnlyChargesFee(t *testing.T) {
 			sp.GasPrice = rapid.SampledFrom([]uint64{0, 1, 2500, 2500, 2500}).Draw(t, "gp")
 			sp.GasLimit = rapid.SampledFrom([]uint64{20000, 20000, 20001, 30000, 100000, 40000}).Draw(t, "gl")
 			sp.Token = rapid.IntRange(0, 1).Draw(t, "tok")
+			// out-of-gas execution paid by the small account with a gas limit above what it can afford:
+			// the consumed gas reaches into the account's last, partial fee unit
+			burnPartial := rapid.IntRange(0, 7).Draw(t, "burnpartial") == 0
+			if burnPartial {
+				sp.Kind, sp.Signers, sp.Payer, sp.GasPrice, sp.GasLimit = "transfer+tail", []int{4}, 4, 2500, 100000+20000*rapid.Uint64Range(0, 3).Draw(t, "glx")
+				ev.Class("gen:out-of-gas-into-partial-fee-unit")
+			}
 			tok := nutils.OntContractAddress
 			if sp.Token == 1 {
 				tok = nutils.OngContractAddress
@@ -240,6 +252,9 @@ func TestC05_FailedTxOnlyChargesFee(t *testing.T) {
 				}
 				if sp.Kind == "transfer+tail" {
 					sp.Tail = rapid.SampledFrom([]string{"throw", "loop", "div0", "badop", "pad2k+throw", "pad2k"}).Draw(t, "tail")
+					if burnPartial {
+						sp.Tail = "loop"
+					}
 					switch sp.Tail {
 					case "throw":
 						code = append(code, 0xF0)
